@@ -56,6 +56,127 @@ def enc(x):
     return tag(x)
 
 
+# ---- operands with aliasing: a heap of dict objects (spec/Tree.tla, "Trees as DAGs") -----------------
+def norm_objs(objs):
+    """what TLC printed -> list of nodes {key: leaf | ["ref", j]} (TLC writes the empty node as [])"""
+    return [dict(n) if isinstance(n, dict) else {} for n in objs]
+
+
+def build_heap(objs, rng, roots=()):
+    """abstract heap -> real dict objects, object j built once and hung wherever a cell says ["ref", j];
+    roots: {index: class} for objects whose class the call form fixes"""
+    roots = dict(roots)
+    real = [None] * len(objs)
+    for i in reversed(range(len(objs))):
+        d = (roots.get(i + 1) or rng.choice(api()['classes']))()
+        keys = list(objs[i])
+        rng.shuffle(keys)
+        for k in keys:
+            c = objs[i][k]
+            dict.__setitem__(d, k, real[c[1] - 1] if c[0] == 'ref' else untag(c))
+        real[i] = d
+    return real
+
+
+def enc_heap(real):
+    """every object of the heap as it is now; a nested dict is named by IDENTITY: ["ref", j] when it is object j,
+    ["new", snapshot] when it is none of the objects of the heap"""
+    ix = {id(d): j + 1 for j, d in enumerate(real)}
+    return [{str(k): ((['ref', ix[id(v)]] if id(v) in ix else ['new', enc(v)]) if isinstance(v, dict) else tag(v))
+             for k, v in dict.items(d)} for d in real]
+
+
+def unfold(objs, i):
+    """the tree an object stands for (used to pick paths and patterns for an operand, never to judge)"""
+    return ['m', {k: (unfold(objs, c[1]) if c[0] == 'ref' else c) for k, c in objs[i - 1].items()}]
+
+
+def obs_hflatten(objs, rt, rng):
+    A = api()
+    real = build_heap(objs, rng)
+    t = real[rt - 1]
+    before = enc_heap(real)
+    items = A['tree_items'](t)
+    keys = A['tree_keys'](t)
+    values = A['tree_values'](t)
+    rebuilt = outcome(lambda: enc(A['items_to_tree'](items)))
+    return {'op': 'hflatten', 'objs': before, 'rt': rt,
+            'items': [[list(it[:-1]), tag(it[-1])] for it in items],
+            'keys': [list(k) for k in keys], 'values': [tag(v) for v in values],
+            'rebuilt': rebuilt, 'objs_after': enc_heap(real)}
+
+
+def obs_hget(objs, rt, path, form, rng):
+    A = api()
+    real = build_heap(objs, rng)
+    t = real[rt - 1]
+    before = enc_heap(real)
+    arg = '.'.join(path) if form.endswith('dotted') else (tuple(path) if form.endswith('tuple') else list(path))
+    f = A['tree_getitem'] if form.startswith('getitem') else (lambda tree, item: A['tree_get'](tree, item, 'no such path'))
+    out = outcome(lambda: enc(f(t, arg)))
+    return {'op': 'hget', 'form': form, 'objs': before, 'rt': rt, 'path': list(path), 'out': out, 'objs_after': enc_heap(real)}
+
+
+def obs_hupdate(objs, rt, ru, ign, form, rng):
+    """tree_update(t, u) / t + u where t and u are objects of ONE heap: u may be t itself, a branch of t (or t a
+    branch of u), or share branches with t; every object is encoded again afterwards"""
+    A = api()
+    real = build_heap(objs, rng, roots={rt: A['Dict']} if form.startswith('Dict') else ())
+    t, u = real[rt - 1], real[ru - 1]
+    before = enc_heap(real)
+    ignore = [untag(x) for x in ign]
+    if form == 'tree_update':
+        call = (lambda: A['tree_update'](t, u, ignore=ignore)) if ignore or rng.random() < 0.5 else (lambda: A['tree_update'](t, u))
+    elif form == 'Dict_add':
+        call = lambda: t + u
+    else:
+        raise ValueError(form)
+    out = outcome(lambda: enc(call()))
+    return {'op': 'hupdate', 'form': form, 'objs': before, 'rt': rt, 'ru': ru, 'ign': ign, 'out': out, 'objs_after': enc_heap(real)}
+
+
+def obs_hto_table(objs, rt, pat, form, rng):
+    real = build_heap(objs, rng)
+    t = real[rt - 1]
+    before = enc_heap(real)
+    rows = outcome(lambda: enc_rows(_rows_of(t, pat, form)))
+    exc = rows[1] if rows[:1] == ['exc'] else ''
+    return {'op': 'hto_table', 'form': form, 'objs': before, 'rt': rt, 'pat': pat, 'rows': [] if exc else rows, 'exc': exc,
+            'objs_after': enc_heap(real)}
+
+
+def run_hist(objs, steps, rng):
+    """a history on ONE heap of real objects that outlive the calls: `steps` gives the kinds and arguments (edit: the caller
+    writes obj[key] = leaf / another object of the heap; update / items: public calls on objects of the heap); returns the
+    observation: every call with its outcome and the whole heap encoded again after it"""
+    A = api()
+    real = build_heap(objs, rng)
+    arg_keys = {'edit': ('kind', 'obj', 'key', 'cell'), 'update': ('kind', 'rt', 'ru', 'ign'), 'items': ('kind', 'rt')}
+    o = {'op': 'hhist', 'objs': enc_heap(real), 'hist': [{k: s[k] for k in arg_keys[s['kind']]} for s in steps], 'steps': []}
+    for s in steps:
+        if s['kind'] == 'edit':
+            c = s['cell']
+            dict.__setitem__(real[s['obj'] - 1], s['key'], real[c[1] - 1] if c[0] == 'ref' else untag(c))
+            o['steps'].append({'kind': 'edit', 'obj': s['obj'], 'key': s['key'], 'cell': c})
+        elif s['kind'] == 'update':
+            t, u = real[s['rt'] - 1], real[s['ru'] - 1]
+            ignore = [untag(x) for x in s['ign']]
+            form = 'Dict_add' if type(t) is A['Dict'] and not ignore and rng.random() < 0.5 else 'tree_update'
+            call = (lambda: t + u) if form == 'Dict_add' else (lambda: A['tree_update'](t, u, ignore=ignore))
+            out = outcome(lambda: enc(call()))
+            o['steps'].append({'kind': 'update', 'form': form, 'rt': s['rt'], 'ru': s['ru'], 'ign': s['ign'], 'out': out, 'objs_after': enc_heap(real)})
+        else:
+            t = real[s['rt'] - 1]
+            items = A['tree_items'](t)
+            keys = A['tree_keys'](t)
+            values = A['tree_values'](t)
+            rebuilt = outcome(lambda: enc(A['items_to_tree'](items)))
+            o['steps'].append({'kind': 'items', 'rt': s['rt'], 'items': [[list(it[:-1]), tag(it[-1])] for it in items],
+                               'keys': [list(k) for k in keys], 'values': [tag(v) for v in values], 'rebuilt': rebuilt,
+                               'objs_after': enc_heap(real)})
+    return o
+
+
 def outcome(f):
     try:
         return f()
@@ -198,7 +319,7 @@ def fails_update(o, want):
     return tuple(f)
 
 
-CASE_KEYS = ('op', 'form', 't', 'u', 'ign', 'path', 'leaf', 'pat', 'rows')
+CASE_KEYS = ('op', 'form', 't', 'u', 'ign', 'path', 'leaf', 'pat', 'rows', 'objs', 'rt', 'ru', 'hist')
 
 
 # ---- S2C: replay of the cases TLC enumerated ---------------------------------------------------
@@ -215,6 +336,8 @@ def s2c_single(ctx, log, cases):
             log.s2c(o, ok)
         for p, v in c['items']:
             form = GET_FORMS[(n + len(p)) % len(GET_FORMS)]
+            if form.endswith('dotted') and list(p) not in c['spellable']:      # 'a.b.c' spells a path of dot-free keys only (the spec says which)
+                form = 'getitem_tuple'
             for f in (form, 'getitem_list'):
                 o = obs_get(t, p, f, ctx.rng)
                 log.s2c(o, o['out'] == v and o['after'] == t)
@@ -234,11 +357,74 @@ def s2c_merge(ctx, log, cases):
             if o['t'] != t or o['u'] != u:
                 raise Machinery('build/enc do not round-trip: %r %r' % (t, u))
             log.s2c(o, fails_update(o, want))
+        for k, sg in enumerate(c['single']):                    # the same update as one tree_setitem on t (in place by design)
+            form = ('tuple', 'list', 'dotted')[(n + k) % 3]
+            if form == 'dotted' and not sg['spellable']:
+                form = 'tuple'
+            o = obs_setitem(t, sg['path'], sg['leaf'], c['ign'], form, ctx.rng)
+            log.s2c(o, o['t_after'] == want)
         if want != t and want != u:
             ctx.note(('merge', json.dumps([t, u, c['ign']], sort_keys=True)))
         ctx.traces += 1
         if n % 9973 == 4242:
             ctx.sample({'s2c_update': {'t': t, 'u': u, 'ign': c['ign'], 'expected': want}})
+
+
+def s2c_heap(ctx, log, cases):
+    """operands with aliasing: TLC enumerated the heaps and printed what the law says about the unfolded trees"""
+    for n, c in enumerate(cases):
+        objs = norm_objs(c['objs'])
+        if c['op'] == 'hitems':
+            t = norm(c['t'])
+            want = canon([[list(p), v] for p, v in c['items']])
+            o = obs_hflatten(objs, c['rt'], ctx.rng)
+            if o['objs'] != objs:
+                raise Machinery('build_heap/enc_heap do not round-trip: %r' % (objs,))
+            ok = (canon(o['items']) == want and o['rebuilt'] == t and o['objs_after'] == objs
+                  and o['keys'] == [it[0] for it in o['items']] and o['values'] == [it[1] for it in o['items']])
+            log.s2c(o, ok)
+            for k, (p, v) in enumerate(c['items']):
+                o = obs_hget(objs, c['rt'], p, GET_FORMS[(n + k) % len(GET_FORMS)], ctx.rng)
+                log.s2c(o, o['out'] == v and o['objs_after'] == objs)
+        else:
+            want = norm(c['out'])
+            for form in ['tree_update'] + (['Dict_add'] if not c['ign'] else []):
+                o = obs_hupdate(objs, c['rt'], c['ru'], c['ign'], form, ctx.rng)
+                if o['objs'] != objs:
+                    raise Machinery('build_heap/enc_heap do not round-trip: %r' % (objs,))
+                log.s2c(o, tuple(f for f, bad in (('out', o['out'] != want), ('objs_after', o['objs_after'] != objs)) if bad))
+        if c['shared']:
+            ctx.note(('heap', c['op'], json.dumps([objs, c['rt'], c.get('ru'), c.get('ign')], sort_keys=True)))
+        ctx.traces += 1
+        if n % 3001 == 1500:
+            ctx.sample({'s2c_aliasing': {k: c[k] for k in ('op', 'objs', 'rt', 'ru', 'ign', 'out', 'items') if k in c}})
+
+
+def s2c_hist(ctx, log, cases):
+    """histories TLC enumerated (call, edit(s) by the caller, call - on the same objects): every call must give what the law
+    says about the operands as they are at that moment, and leave the heap as it is"""
+    for n, c in enumerate(cases):
+        objs = norm_objs(c['objs'])
+        o = run_hist(objs, c['steps'], ctx.rng)
+        if o['objs'] != objs:
+            raise Machinery('build_heap/enc_heap do not round-trip: %r' % (objs,))
+        fails = []
+        for k, (w, g) in enumerate(zip(c['steps'], o['steps'])):
+            if w['kind'] == 'update':
+                ok = g['out'] == norm(w['out']) and g['objs_after'] == norm_objs(w['objs_after'])
+            elif w['kind'] == 'items':
+                ok = (canon(g['items']) == canon([[list(p), v] for p, v in w['items']]) and g['rebuilt'] == norm(w['t'])
+                      and g['keys'] == [it[0] for it in g['items']] and g['values'] == [it[1] for it in g['items']]
+                      and g['objs_after'] == norm_objs(w['objs_after']))
+            else:
+                ok = True
+            if not ok:
+                fails.append('step%d_%s' % (k + 1, w['kind']))
+        log.s2c(o, tuple(fails))
+        ctx.note(('hist', json.dumps(c, sort_keys=True)))
+        ctx.traces += 1
+        if n % 2003 == 1000:
+            ctx.sample({'s2c_history': c})
 
 
 def s2c_table(ctx, log, cases):
@@ -266,6 +452,51 @@ def s2c_table(ctx, log, cases):
 
 # ---- C2S: seeded random, larger and stranger inputs --------------------------------------------
 KEYS = ['a', 'b', 'c', 'd', 'k1', 'name', 'x', 'Zz']
+# the key alphabet: keys are arbitrary strings.  Keys with dots (whose split may be a path of the tree), the empty key,
+# keys that are prefixes / concatenations of other keys, names of methods and attributes of dict / dictattr / Dict
+STRANGE = ['a.b', 'a.b.c', 'b.a', 'a.a', '.a', 'a.', '.', '', 'ab', 'keys', 'items', 'copy', 'update', 'get', 'values',
+           '_x', '__class__', '__dict__', 'a b', '0', 'None']
+
+
+def spellable(path):
+    """'a.b.c' spells a path only when none of its keys contains a dot"""
+    return all('.' not in k for k in path)
+
+
+def get_form(rng, path):
+    f = rng.choice(GET_FORMS)
+    return f if spellable(path) or not f.endswith('dotted') else f.replace('dotted', 'list')
+
+
+def hangs_twice(objs, roots):
+    """bookkeeping only: some object is referenced from two places (or is a root and referenced, or is both roots)"""
+    where = list(roots) + [c[1] for n in objs for c in n.values() if c[0] == 'ref']
+    return len(set(where)) < len(where)
+
+
+def rand_heap(rng, keys, leaves):
+    """a random DAG of dict objects with two roots (1 = t, ru = u): references point to later objects and prefer a
+    few of them, so that the same object hangs in several places; unreachable objects are dropped"""
+    n = rng.choice([2, 3, 3, 4, 5, 6])
+    objs = []
+    for i in range(1, n + 1):
+        later = list(range(i + 1, n + 1))
+        fav = rng.sample(later, min(2, len(later)))
+        node = {}
+        for k in rng.sample(keys, min(len(keys), rng.choice([1, 2, 2, 3]))):
+            node[k] = ['ref', rng.choice(fav)] if fav and rng.random() < 0.6 else rng.choice(leaves)
+        objs.append(node)
+    ru = rng.choice([1, 1] + list(range(2, n + 1)))
+    seen, stack = set(), [1, ru]
+    while stack:
+        i = stack.pop()
+        if i not in seen:
+            seen.add(i)
+            stack += [c[1] for c in objs[i - 1].values() if c[0] == 'ref']
+    order = sorted(seen)
+    new = {old: j + 1 for j, old in enumerate(order)}
+    objs = [{k: (['ref', new[c[1]]] if c[0] == 'ref' else c) for k, c in objs[old - 1].items()} for old in order]
+    return objs, 1, new[ru]
 LEAVES = [["n", 0], ["i", 0], ["i", 1], ["i", -7], ["i", 2147483647], ["s", ""], ["s", "s"], ["s", "a"], ["s", "x y"],
           ["l", []], ["l", [["i", 1]]], ["l", [["i", 1], ["s", "s"]]], ["l", [["l", [["i", 1]]], ["n", 0]]], ["l", [["n", 0]]]]
 
@@ -343,11 +574,13 @@ def c2s(ctx, log, n):
         depth = rng.choice([1, 2, 3, 3, 4, 5])
         keys = rng.sample(KEYS, rng.choice([2, 3, 4, 8]))
         leaves = rng.sample(LEAVES, rng.choice([2, 4, len(LEAVES)]))
+        if i % 3 == 1:                                    # a third of the trees over the strange part of the key alphabet
+            keys = rng.sample(STRANGE, rng.choice([2, 3, 5])) + rng.sample(['a', 'b'], rng.choice([1, 2]))
         t = rand_tree(rng, depth, keys, leaves)
         its = items_of(t)
         log.c2s(obs_flatten(t, rng))
         for p, _ in rng.sample(its, min(3, len(its))):
-            log.c2s(obs_get(t, p, rng.choice(GET_FORMS), rng))
+            log.c2s(obs_get(t, p, get_form(rng, p), rng))
         # pairs: the tree with itself, with {}, with overlapping and with independent trees; ignore lists
         others = [t, ['m', {}], perturb(rng, t, keys, leaves, depth), perturb(rng, t, keys, leaves, depth),
                   rand_tree(rng, depth, keys, leaves)]
@@ -367,7 +600,7 @@ def c2s(ctx, log, n):
             else:
                 path = [rng.choice(keys) for _ in range(rng.choice([1, 2, 3]))]
             ign = rng.choice([[], [["n", 0]], rng.sample(leaves, 1)])
-            log.c2s(obs_setitem(t, path, rng.choice(leaves), ign, rng.choice(['dotted', 'tuple', 'list']), rng))
+            log.c2s(obs_setitem(t, path, rng.choice(leaves), ign, rng.choice(['dotted', 'tuple', 'list'] if spellable(path) else ['tuple', 'list']), rng))
         # patterns
         for _ in range(3):
             pat = rand_pattern(rng, t, keys)
@@ -390,6 +623,36 @@ def c2s(ctx, log, n):
                 form = rng.choice(['rows_list', 'rows_dictable']) if rows else 'rows_list'
                 log.c2s(obs_from_table(rows, pat, form))
                 log.c2s(obs_round_rows(rows, pat, form))
+        # operands with aliasing: one heap, t = object 1, u = any object (t itself, a branch of t, a tree sharing branches with t)
+        for _ in range(2):
+            objs, rt, ru = rand_heap(rng, keys, leaves)
+            log.c2s(obs_hflatten(objs, rt, rng))
+            hits = items_of(unfold(objs, rt))
+            for p, _ in rng.sample(hits, min(2, len(hits))):
+                log.c2s(obs_hget(objs, rt, p, get_form(rng, p), rng))
+            for a, b in ((rt, ru), (ru, rt), (rt, rt)):
+                ign = rng.choice([[], [], [["n", 0]], rng.sample(leaves, min(2, len(leaves)))])
+                o = obs_hupdate(objs, a, b, ign, rng.choice(['tree_update', 'Dict_add']) if not ign else 'tree_update', rng)
+                log.c2s(o)
+                if hangs_twice(objs, (a, b)):
+                    ctx.note(('c2s-heap', json.dumps([objs, a, b, ign], sort_keys=True)))
+            log.c2s(obs_hto_table(objs, rt, rand_pattern(rng, unfold(objs, rt), keys), rng.choice(['tree_to_table', 'dictable']), rng))
+            # a history on the same objects: calls, edits by the caller in between, calls again
+            steps = []
+            m = len(objs)
+            for _ in range(rng.choice([3, 4, 5, 6])):
+                r = rng.random()
+                if steps and r < 0.45:
+                    j = rng.randrange(1, m + 1)
+                    later = [x for x in range(j + 1, m + 1)]
+                    cell = ['ref', rng.choice(later)] if later and rng.random() < 0.25 else rng.choice(leaves)
+                    steps.append({'kind': 'edit', 'obj': j, 'key': rng.choice(list(objs[j - 1]) + keys), 'cell': cell})
+                elif r < 0.85:
+                    a, b = rng.choice([(rt, ru), (rt, ru), (ru, rt), (rt, rt), (rng.randrange(1, m + 1), rng.randrange(1, m + 1))])
+                    steps.append({'kind': 'update', 'rt': a, 'ru': b, 'ign': rng.choice([[], [], [], [["n", 0]]])})
+                else:
+                    steps.append({'kind': 'items', 'rt': rng.choice([rt, ru])})
+            log.c2s(run_hist(objs, steps, rng))
         if i % 97 == 5:
             ctx.sample({'c2s_observation': log.obs[-1]})
 
@@ -407,15 +670,32 @@ def run(ctx):
                 'tree_to_table, dictable(tree, pattern), table_to_tree; the encoded result and the deep snapshots of t and u taken '
                 'before and after the call are compared with ==.  C2S: random trees to depth 5 over 8 keys and 14 leaves with '
                 'overlapping / conflicting partners, ignore lists, tree_setitem and random patterns (1-4 wildcards), judged by Trace_Tree. '
+                'Key alphabet: the TLC universes include trees over "a", "ab", "a.ab" (a dotted key beside the path a -> ab it would spell), '
+                '"" and "keys"; an update with a single item is also replayed as tree_setitem(t, path, leaf, ignore); the dotted spelling of a '
+                'path is used only where the spec says it spells the path.  C2S draws a third of its trees over 21 strange keys (dots, empty, '
+                'prefixes, method / dunder names).  '
+                'Aliasing: MC_TreeHeap enumerates operands as DAGs of dict OBJECTS (the same object under two keys / at two depths / in t and '
+                'in u, u is t, u a branch of t and the reverse); the driver builds exactly that object graph, the law is applied to the '
+                'unfolded trees and every object of the heap is encoded again (references by identity) after the call and compared with ==.  '
+                'Histories: MC_TreeHist enumerates call ; edit by the caller ; call on the SAME objects (tree_update / Dict + dict / '
+                'tree_items..), each call compared with the law on what the operands hold at that moment.  C2S: random heaps (<= 6 objects) '
+                'and random histories (3-6 steps) on them, judged by Trace_Tree (hflatten/hget/hupdate/hto_table/hhist).  '
                 'Non-trivial = merge whose result is neither t nor u; flatten of a tree with >= 2 items and a nested path; '
-                'pattern with at least one row.  Distinct by abstract input.')
+                'pattern with at least one row; heap in which some object hangs in two places; every history.  Distinct by abstract input.')
     ctx.mc('MC_Tree', 'MC_Tree_quick.cfg' if ctx.quick else 'MC_Tree_thorough.cfg')
     # the non-destruction clause on a heap model with aliasing: the code's copy.copy of the root is refuted by TLC
     # (design-level counterpart of the violation the replay finds), copying every branch (the repair) is proved
-    ctx.mc('MC_TreeHeap', 'MC_TreeHeap_today.cfg', must_fail='OperandsIntact')
+    ctx.mc('MC_TreeHeap', 'MC_TreeHeap_today.cfg', must_fail='OperandsIntactAtReturn')
     ctx.mc('MC_TreeHeap', 'MC_TreeHeap_repaired.cfg' if ctx.quick else 'MC_TreeHeap_repaired_wide.cfg')
-    ctx.extra['mechanism_models'] = ('MC_TreeHeap (dicts as heap objects): copy.copy(root) + in-place insertion violates OperandsIntact '
-                                     '(expected, must-fail run); copying every branch satisfies it')
+    if not ctx.quick:                      # the other design-level counterparts (must-fail mechanism models) run in the thorough tier
+        ctx.mc('MC_TreeHeap', 'MC_TreeHeap_once.cfg', must_fail='ResultIsMerge')
+        ctx.mc('MC_Tree', 'MC_Tree_eafp.cfg', must_fail='EAFPLookupIsMerge')
+        ctx.mc('MC_TreeHist', 'MC_TreeHist_cached.cfg', must_fail='CallsAreMerges')
+    ctx.extra['mechanism_models'] = ('MC_TreeHeap (operands = DAGs of dict objects, u may be t / a branch of t / share branches with t): '
+                                     'copy.copy(root) + in-place insertion violates OperandsIntact and a walk that skips objects it has seen '
+                                     'violates ResultIsMerge (thorough) (expected, must-fail runs); copying every branch + walking the unfolding satisfies both.  '
+                                     'MC_Tree/EAFPLookupIsMerge (thorough): _tree_setitem with one dictattr lookup res[key] resolves a missing '
+                                     'dotted key as a path and is refuted (must-fail run); MC_TreeHist/CallsAreMerges (thorough): a memo of the last flattened update keyed on object identity is refuted over histories call ; edit ; call')
     log = Log(ctx, 1500 if ctx.quick else 20000)
     cases = gen(ctx, 'MC_Tree', 'MC_Tree_gen.cfg' if ctx.quick else 'MC_Tree_gent.cfg')     # all three families in one TLC run
     s2c_single(ctx, log, [c for c in cases if c['op'] == 'items'])
@@ -424,15 +704,25 @@ def run(ctx):
     if ctx.quick:
         cases = [c for i, c in enumerate(cases) if i % 3 == ctx.seed % 3]
     s2c_table(ctx, log, cases)
+    s2c_heap(ctx, log, gen(ctx, 'MC_TreeHeap', 'MC_TreeHeap_gen.cfg' if ctx.quick else 'MC_TreeHeap_gent.cfg'))
+    # histories: the same operand objects handed to consecutive calls and edited by their owner in between (the law - no call has
+    # a memory - is checked on the mechanism model in the same TLC run that enumerates the histories)
+    s2c_hist(ctx, log, gen(ctx, 'MC_TreeHist', 'MC_TreeHist_gen.cfg' if ctx.quick else 'MC_TreeHist_gent.cfg'))
     c2s(ctx, log, 300 if ctx.quick else 5000)
     judge(ctx, log, 'Trace_Tree', CASE_KEYS)
     ctx.exhaustive = False
     ctx.assumptions += [
-        'keys are strings without "." and without a leading "_"; leaves are None/ints/strings/lists (no bool/int/float mixing, so membership in an ignore list is plain equality)',
+        'keys are arbitrary strings (dots, empty, leading "_", names of dict methods included) except that keys used as literal parts of a pattern contain no "/" and no leading "%" (the pattern syntax); '
+        'the dotted spelling "a.b.c" of a path is used only for paths whose keys contain no "." (it spells no other path); '
+        'leaves are None/ints/strings/lists (no bool/int/float mixing, so membership in an ignore list is plain equality)',
+        'aliasing: operand heaps are acyclic (a dict that contains itself is not a finite tree); the law is stated on the unfolded trees; "not modified" is read per object, identities of nested dicts included; '
+        'tree_setitem (in place by design) is not replayed on operands with aliasing - the statement does not say what it does to a shared branch',
+        'histories: between two calls the caller writes obj[key] = leaf or obj[key] = another dict of the heap; calls are tree_update / Dict + dict / tree_items+keys+values+items_to_tree',
         'branches are dict, Dict or dictattr (the default `types`); nested branches are non-empty, the root may be {}',
         'patterns have distinct wildcard names; rows handed to table_to_tree have string values at key positions and unique paths',
         'a pattern shorter than the tree matches the KEYS of the branch it ends on (named deviation MatchesBranchKey, the documented behaviour)',
-        'small scope: MC/S2C trees have depth <= 2 over 2 keys (plus 48 sampled depth-3 trees, plus 3-key trees for flatten); C2S trees reach depth 5',
+        'small scope: MC/S2C trees have depth <= 2 over 2 keys (plus 48 sampled depth-3 trees, plus 3-key trees for flatten, plus 63 (thorough 215) trees to depth 3 over dotted keys and 15 over ""/"keys"); '
+        'S2C heaps have <= 3 (thorough 4) objects over 2 keys, S2C histories 2 objects and 3 (thorough 4) steps; C2S trees reach depth 5, C2S heaps 6 objects',
     ]
 
 
@@ -454,6 +744,16 @@ def replay(ctx, body):
         o = obs_from_table(c['rows'], c['pat'], c['form'])
     elif c['op'] == 'round_tree':
         o = obs_round_tree(c['t'], c['pat'], rng)
+    elif c['op'] == 'hflatten':
+        o = obs_hflatten(c['objs'], c['rt'], rng)
+    elif c['op'] == 'hget':
+        o = obs_hget(c['objs'], c['rt'], c['path'], c['form'], rng)
+    elif c['op'] == 'hupdate':
+        o = obs_hupdate(c['objs'], c['rt'], c['ru'], c['ign'], c.get('form', 'tree_update'), rng)
+    elif c['op'] == 'hto_table':
+        o = obs_hto_table(c['objs'], c['rt'], c['pat'], c['form'], rng)
+    elif c['op'] == 'hhist':
+        o = run_hist(c['objs'], c['hist'], rng)
     else:
         o = obs_round_rows(c['rows'], c['pat'], c.get('form', 'rows_list'))
     bad = ctx.validate('Trace_Tree', [o])
